@@ -221,6 +221,12 @@ impl<'s, M: Matcher, S: Sink> MultiLine<'s, M, S> {
 
         let line =
             lines::locate(self.slice, self.config.line_term.as_byte(), mat);
+        // The only way to locate an empty line range is an empty match at
+        // the very end of the haystack, just after a line terminator. It
+        // belongs to no line, so it is neither reported nor given context.
+        if line.is_empty() {
+            return Ok(true);
+        }
         // We delay sinking the match to make sure we group adjacent matches
         // together in a single sink. Adjacent matches are distinct matches
         // that start and end on the same line, respectively. This guarantees
